@@ -102,7 +102,9 @@ def apply_close(ex, st, recv, args, exact=False):
     has = h.dict_has(recv, "children", name)
     for (s, b) in ex.branch(st, has):
         if not b:
-            out.append((s, _Raised("KeyError")))
+            # not a child yet: a no-op when the name was declared (lazy child, after fix F21), KeyError otherwise
+            for (s2, lz) in ex.branch(s, s.heap.dict_has(recv, "_lazy_children", name)):
+                out.append((s2, NONEV) if lz else (s2, _Raised("KeyError")))
             continue
         hh = s.heap
         k = cidx_f(c.term)
@@ -657,9 +659,13 @@ def verify_close(ex, contract, timeout_ms=30000):
 
             if oc.kind == "raise":
                 if oc.exc == "KeyError":
-                    ob("keyerror-only-for-an-unknown-child", Not(has))
+                    ob("keyerror-only-for-an-unknown-child", And(Not(has), Not(E.dict_has(self, "_lazy_children", child))), PC + ("C19",))
                 continue
-            ob("completes-only-for-a-child", has)
+            # a child declared by name only and not created yet behaves like one constructed up front: closing it is a no-op, not a KeyError
+            # (property C19; the code raised KeyError before fix F21)
+            lazy = E.dict_has(self, "_lazy_children", child)
+            ob("completes-only-for-a-child-or-a-declared-one", Or(has, lazy))
+            ob("declared-but-unused-child:closing-it-does-nothing", Implies(And(Not(has), lazy), len([x for x in st.log if len(x) in (3, 4)]) == 0), PC + ("C19",))
             allcalls = [x for x in st.log if len(x) in (3, 4)]
             root_refresh = [x for x in allcalls if x[0].endswith("StrategyBase.update")]
             if root_refresh:
